@@ -11,6 +11,8 @@ Static clauses:
   SIB      mint and burn redeemers are built by the same function over their own lists
   CHAIN    compile_redeemers collects all four redeemer lists
   TAGS     each builder uses the redeemer tag of its purpose
+  R-CTX    the lowering of a redeemer-carrying block hands its fields the context it was given: no block-level
+           `enter_*_expr()` (a policy name in a redeemer would be read as a script address)
 Not decided: equality of redeemer data with the template expression (C09/C01); that the ledger's canonical order is
 (txid, index) / bytewise policy / reward-account order (domain fact, trusted).
 """
